@@ -90,6 +90,7 @@ def single_faults(keys, n, wide):
             out.append(("drop_column", d))
     if wide is None:
         out.append(("second_value_column",))
+        out.append(("ragged_csv",))  # CSV text only: every data line carries one more field than the header names
     return out
 
 
@@ -139,6 +140,8 @@ def apply_faults(keys, faults):
             structural.add(("drop_column", f[1]))
         elif kind == "second_value_column":
             structural.add(("second_value_column",))
+        elif kind == "ragged_csv":
+            structural.add(("ragged_csv",))
     out = []
     for r in rows:
         lab = {k: v for k, v in r[0].items() if k != "_dup"}
@@ -152,6 +155,8 @@ def classify(keys, rows, structural, flags, header, wide):
     if structural:
         if structural == {("extra_wide_column",)} and allow_extra:
             return "open", None  # a surplus COLUMN is not a row with an unknown item: the statement leaves it open
+        if ("ragged_csv",) in structural and (allow_extra or allow_missing):
+            return "open", None  # how a reader aligns the surplus field is its own business; only the default is stated
         return "raise", None
     # a label of a typed dimension given as text is that item once converted to the declared type
     def canon(k, v):
@@ -222,6 +227,8 @@ def frame_for(keys, rows, structural, lay):
         elif s[0] == "extra_wide_column":
             df = df.copy()
             df["bird"] = 1.5
+        elif s[0] == "ragged_csv":
+            pass  # applied to the CSV text
         else:
             df = df.copy()
             df["second"] = 1.5
@@ -246,6 +253,8 @@ def run_case(keys, lay, faults, flags, entry):
         t["kind"] = kind
         return "fail", dict(case=case, tags=t, what=f"{desc}: {what}")
 
+    if ("ragged_csv",) in structural and entry != "csv":
+        return "n/a", None
     st, df = attempt(lambda: frame_for(keys, rows, structural, lay))
     if st == "raised":
         raise RuntimeError(f"frame builder failed on {desc}: {df}")
@@ -272,6 +281,11 @@ def run_case(keys, lay, faults, flags, entry):
         if entry == "csv":
             path = os.path.join(tmp, "p.csv")
             df.to_csv(path, index=has_index)
+            if ("ragged_csv",) in structural:
+                with open(path) as fh:
+                    lines = fh.read().splitlines()
+                with open(path, "w") as fh:
+                    fh.write("\n".join([lines[0]] + [ln + ",9.75" for ln in lines[1:]]) + "\n")
             reader = flodym.CSVParameterReader(parameter_files={"par": path}, allow_missing_values=flags[0], allow_extra_values=flags[1])
         else:
             path = os.path.join(tmp, "p.xlsx")
@@ -335,6 +349,8 @@ def run_unit(u):
     res = dict(evals=0, nontrivial=0, outcomes={}, fails=[], samples=[])
 
     def rec(oc, f, nt=True):
+        if oc == "n/a":
+            return
         res["evals"] += 1
         res["nontrivial"] += 1 if nt else 0
         res["outcomes"][oc] = res["outcomes"].get(oc, 0) + 1
